@@ -4,7 +4,9 @@ Obligations: coq/Props/C02.v (induction over all histories of Model/Registry.v).
 Tie K: random histories (deliberate collisions, id reuse, wrong collection types, unknown names, duplicate batch
        entries, stale refs) run on a real SQLite Butler registry in worker subprocesses; after EVERY step the
        outcome class and what every query interface / the raw tables report for EVERY (collection, type, data ID)
-       is compared with the Coq model (vm_compute) -- Model/RegistryCheck.v.
+       is compared with the Coq model (vm_compute) -- Model/RegistryCheck.v; the same pass replays the ABSTRACT
+       specification Model/RegistryAbs.v (astep, the map the theorems abs_commutes / contents_eq_abstract refine to)
+       and compares its outcome, its memberships and its collections with the implementation while the history is honest.
 Oracle (from the property text, independent of the Coq model): class `Spec` below, an abstract
        {collection -> {(type, data id) -> dataset}} map of the history, plus direct checks on the observations:
        uniqueness per (collection, type, data id) in every view, one RUN for life, RUN membership == run_of,
@@ -25,7 +27,7 @@ NDET = 2
 DOCUMENTED = {"Conflict", "MissingCollection", "MissingDatasetType", "CollectionTypeErr", "DataIdValueErr"}
 ERRCODE = {"Ok": 0, "OkNew": 1, "Err:Conflict": 2, "Err:MissingCollection": 3, "Err:MissingDatasetType": 4,
            "Err:CollectionTypeErr": 5, "Err:DataIdValueErr": 6}
-HDR = ("From Coq Require Import NArith List.\nFrom V Require Import Model.Registry Model.RegistryCheck.\n"
+HDR = ("From Coq Require Import NArith List.\nFrom V Require Import Model.Registry Model.RegistryAbs Model.RegistryCheck.\n"
        "Import ListNotations.\nOpen Scope N_scope.\n")
 UNIV = f"[{';'.join(str(i) for i in range(NCOLL + 1))}] [{';'.join(str(i) for i in range(NTYPE + 1))}] [0;1]"
 
@@ -485,6 +487,8 @@ def run(ctx: Ctx):
     ctx.assumptions += [
         "SQLite enforces PRIMARY KEY / UNIQUE / FOREIGN KEY ... ON DELETE CASCADE on the tags, dataset and summary tables as the "
         "model's insert primitives do (exercised by the correspondence on every run)",
+        "the refinement theorems (abs_commutes, contents_eq_abstract) are stated for HONEST histories: every associate is handed refs "
+        "whose dataset type and data ID are those of the dataset's memberships (abs_commutes_step: needed for import only)",
         "one dimension group {instrument, detector}; PostgreSQL backend, CHAINED / CALIBRATION collections, datastore records "
         "(OrphanedRecordError) and dataset-type removal are outside the model",
         "refs handed to associate / disassociate / removeDatasets are ones the registry returned earlier (possibly stale) "
@@ -565,13 +569,24 @@ def run(ctx: Ctx):
         import re
         m = re.search(r"=\s*\[(\d+);\s*(\d+)\]", txt)
         fields = {1: "outcome", 2: "collections", 3: "dataset types", 4: "dataset table", 5: "raw tag rows", 6: "queryDatasets view",
-                  7: "summary-pruned query", 8: "summary dataset types (superset)", 9: "summary governors (superset)"}
+                  7: "summary-pruned query", 8: "summary dataset types (superset)", 9: "summary governors (superset)",
+                  10: "abstract specification astep (outcome / memberships / collections) -- Model/RegistryAbs.v"}
         if m:
             stp, fld = int(m.group(1)), int(m.group(2))
             detail = f"step {stp} ({h[stp]} -> {steps[stp]['out']}): model differs on {fields.get(fld, fld)}"
             ctx.disagreement("hist", {"origin": org, "history": h[: stp + 1], "observed": _brief(steps[stp]["obs"])}, detail)
         else:
             ctx.disagreement("hist", {"origin": org, "history": h}, "model differs (position not recovered): " + txt[-300:])
+    # how many of the compared histories lie in the domain of abs_commutes (honest: no forged ref handed to associate)
+    if meta:
+        rc, txt = ctx.coq_eval("honest", HDR, "map honest [" + ";\n ".join("[" + "; ".join(cop(o) for o in h) + "]" for h, _, _ in meta) + "]")
+        nt, nf = txt.count("true"), txt.count("false")
+        if rc != 0 or nt + nf != len(meta):
+            ctx.tie_broken("K", "honest", "could not evaluate `honest` on the compared histories: " + txt[-300:])
+        else:
+            ctx.hist("abs_commutes_domain", "honest", nt)
+            if nf:
+                ctx.hist("abs_commutes_domain", "not honest (abstract replay stops at the forged associate)", nf)
     drift = ctx.coq_cases("summ_exact", HDR, cases, "chk_summ_exact", shard=4 if ctx.quick else 2, timeout=900)
     if drift:
         ctx.cov["structural_drift"].append(f"summary tables differ from the model's exact rows in {len(drift)} histories (superset relation holds)")
